@@ -33,11 +33,13 @@ impl<'a> BytesLike for &'a [u8] { open spec fn bview(&self) -> Seq<u8> { (*self)
 impl BytesLike for Vec<u8> { open spec fn bview(&self) -> Seq<u8> { self@ } }
 impl<'a> BytesLike for &'a Vec<u8> { open spec fn bview(&self) -> Seq<u8> { (*self)@ } }
 impl<'a, const N: usize> BytesLike for &'a [u8; N] { open spec fn bview(&self) -> Seq<u8> { (*self)@ } }
+impl<'a, 'b> BytesLike for &'a &'b Vec<u8> { open spec fn bview(&self) -> Seq<u8> { (**self)@ } }
 /// cbor_event's `write_text<S: AsRef<str>>`
 pub trait TextLike { spec fn tview(&self) -> Seq<char>; }
 impl<'a> TextLike for &'a String { open spec fn tview(&self) -> Seq<char> { (*self)@ } }
 impl<'a> TextLike for &'a str { open spec fn tview(&self) -> Seq<char> { (*self)@ } }
 impl TextLike for String { open spec fn tview(&self) -> Seq<char> { self@ } }
+impl<'a, 'b> TextLike for &'a &'b String { open spec fn tview(&self) -> Seq<char> { (**self)@ } }
 #[verifier::external_body] pub struct Serializer { _p: core::marker::PhantomData<u8> }
 /// the bytes a token sequence denotes (heads as cbor_event writes them: shortest form, cross-checked by Kani)
 pub uninterp spec fn bytes_of_toks(t: Seq<Tok>) -> Seq<u8>;
